@@ -34,9 +34,9 @@ pub struct CovCase {
     pub scale_b: u64,
 }
 
-struct CovRef {
+pub struct CovRef {
     /// exact sum_k dx_i dx_j as f64, per (i,j)  (dx = x - rowmean; computed as (n x - S)/n)
-    c: Vec<Vec<f64>>,
+    pub c: Vec<Vec<f64>>,
     /// sum_k |dx_i||dx_j|
     cabs: Vec<Vec<f64>>,
     /// sum_k |dx_i|
@@ -45,7 +45,7 @@ struct CovRef {
     range: Vec<f64>,
 }
 
-fn cov_reference<F: Fl>(rows: &[Vec<F>]) -> CovRef {
+pub fn cov_reference<F: Fl>(rows: &[Vec<F>]) -> CovRef {
     let n = rows[0].len();
     let nn = Dy::from_i128(n as i128);
     let n2 = nn.mul(&nn);
@@ -84,7 +84,7 @@ fn cov_reference<F: Fl>(rows: &[Vec<F>]) -> CovRef {
     CovRef { c, cabs, dabs, maxabs, range }
 }
 
-fn cov_tol<F: Fl>(r: &CovRef, i: usize, j: usize, n: usize, dof: f64) -> f64 {
+pub fn cov_tol<F: Fl>(r: &CovRef, i: usize, j: usize, n: usize, dof: f64) -> f64 {
     let g = gamma::<F>(n);
     let ei = g * r.maxabs[i];
     let ej = g * r.maxabs[j];
@@ -118,7 +118,7 @@ fn run_corr<F: Fl>(rows: &[Vec<F>], layout: &LayoutSpec) -> Result<Array2<F>, Fa
 }
 
 /// Budget for rho_ij (DESIGN.md appendix C), None when a variable does not resolve.
-fn corr_tol<F: Fl>(r: &CovRef, i: usize, j: usize, n: usize) -> Option<(f64, f64)> {
+pub fn corr_tol<F: Fl>(r: &CovRef, i: usize, j: usize, n: usize) -> Option<(f64, f64)> {
     let g = gamma::<F>(n);
     // population variances (ddof = 0)
     let vi = r.c[i][i] / n as f64;
